@@ -158,6 +158,20 @@ def check_rows(case):
             second = entry.call(est, meth, Qw)
             d = _same(np.asarray(full)[pidx], second, False)
             require(d is None, "repeat:same-object-edited-in-place:" + meth, "%s on an array edited in place after a first call: %s" % (meth, d), f2)
+        if isinstance(Qm, np.ndarray) and Qm.ndim == 2 and Qm.dtype == np.float64 and mm >= 1:
+            # the same rows in other containers a caller may hold them in: nested lists, a read-only array (a memory-mapped file, a
+            # pandas block), Fortran order, a non-native byte order (data read from a big-endian file).  A class may refuse a
+            # container; if it answers, it answers what it answers for the plain array
+            ro = Qm.copy()
+            ro.flags.writeable = False
+            for cname, Qc in (("nested-lists", Qm.tolist()), ("read-only", ro), ("fortran-order", np.asfortranarray(Qm.copy())), ("big-endian", Qm.astype(">f8"))):
+                try:
+                    outc = entry.call(est, meth, Qc)
+                except Exception:  # noqa: BLE001 - refusing a container is outside the statement
+                    labels.append("container-refused:" + cname)
+                    continue
+                d = _same(full, outc, False)
+                require(d is None, "rows:container:%s:%s" % (cname, meth), "%s on the same rows held as %s: %s" % (meth, cname, d), dict(f2, container=cname))
         if name in ("PiecewiseRegressor", "PiecewiseClassifier") and meth == methods[0] and case.get("process_backend"):
             # the caller has a process-based joblib backend active (prefer="threads" is only a hint, a backend context overrides it):
             # same answers as without it
